@@ -166,6 +166,39 @@ func (m *c04Mon) Step(w *sessmc.World, e *sessmc.Event, obs []sessmc.Obs) (rule,
 		if w.T()-1 > m.highest {
 			m.highest = w.T() - 1 // consumed or gap-filled up to T-1
 		}
+		// kept messages handed to the callbacks in this transition are delivered
+		if !(isIn && q > t0) {
+			for _, o := range obs {
+				if (o.K == "FromApp" || o.K == "FromAdmin") && m.kept[o.Seq] {
+					delete(m.kept, o.Seq)
+				}
+			}
+		}
+		// the gap is closed, but messages are kept above a number that is still missing: they stay kept and the
+		// recovery goes on for that hole — covered by the outstanding request when that one runs to infinity,
+		// otherwise asked for by exactly one request beginning at the number expected now
+		if Tn := w.T(); Tn > m.gapEnd && loggedOnState(st) {
+			lowest := 0
+			for k := range m.kept {
+				if k > Tn && (lowest == 0 || k < lowest) {
+					lowest = k
+				}
+			}
+			if lowest != 0 {
+				bounded := m.chunkEnd != 0
+				m.gapEnd = lowest - 1
+				if bounded {
+					wantEnd, chunkEnd := expectedEnd(cfg, Tn, m.gapEnd)
+					if len(reqs) != 1 || reqs[0].begin != Tn || reqs[0].end != wantEnd {
+						return "C04/R2-hole-below-kept-messages-not-requested", fmt.Sprintf("the requested chunk is complete, %d..%d are still missing below the kept message %d: expected one ResendRequest(%d,%d), got %v", Tn, m.gapEnd, lowest, Tn, wantEnd, reqs)
+					}
+					m.chunkEnd = chunkEnd
+					reqs = nil
+				} else {
+					m.chunkEnd = 0
+				}
+			}
+		}
 		for _, r := range reqs {
 			ok := cfg.Chunk > 0 && m.chunkEnd != 0 && r.tAtSend >= m.chunkEnd && r.tAtSend <= m.gapEnd
 			if !ok {
@@ -227,6 +260,11 @@ func (m *c04Mon) Step(w *sessmc.World, e *sessmc.Event, obs []sessmc.Obs) (rule,
 		}
 	}
 	if !recovering(st) {
+		for k := range m.kept {
+			if k > T {
+				return "C04/R3-kept-message-discarded state=" + prev, fmt.Sprintf("the session returned to normal operation expecting %d although the early message %d, received and kept during the recovery, has not been delivered: it is discarded and will have to be requested again", T, k)
+			}
+		}
 		if T <= m.gapEnd {
 			return "C04/R3-recovery-abandoned state=" + prev, fmt.Sprintf("numbers %d..%d are still missing but the session left recovery (state %s → %s); kept messages %v are forgotten", T, m.gapEnd, prev, st, sn.Stash)
 		}
